@@ -86,6 +86,7 @@ def main(tier):
                         meta.append((i, maxc, term_last, name))
         outs = rgrun.run_many(jobs)
         chk.evaluations += len(jobs)
+        observed = {}       # (scenario, max-count, directory) -> mode -> what that mode reported about the number of matches
         for (i, maxc, term_last, name), (rc, so, se), j in zip(meta, outs, jobs):
             r = recs[i]
             exp = per_file(r, lines, maxc, "crlines" if term_last == "crlf_content" else "lines")
@@ -105,6 +106,7 @@ def main(tier):
             elif name == "countm":
                 got = parse_counts(so)
                 want = {n: exp[k]["matches"] for k, n in enumerate(names)}
+                observed.setdefault((i, maxc, term_last), {})["--count-matches"] = got
                 if exact and got != want:
                     why = {"count_matches": got, "expected": want}
             elif name == "only":
@@ -113,6 +115,7 @@ def main(tier):
                     if l:
                         got[l.split(b":", 1)[0].decode()] += 1
                 want = {n: exp[k]["matches"] for k, n in enumerate(names)}
+                observed.setdefault((i, maxc, term_last), {})["-o records"] = got
                 if exact and got != want:
                     why = {"only_matching_records": got, "expected": want}
             elif name in ("lwith", "lwithout"):
@@ -135,6 +138,8 @@ def main(tier):
                         nmatch[n] += 1
                         if not r["o"]["inv"] and not m["data"]["submatches"]:
                             bad_empty = (n, m["data"]["line_number"])
+                if not r["o"]["inv"]:
+                    observed.setdefault((i, maxc, term_last), {})["JSON submatches"] = sub
                 wantc = {n: exp[k]["count"] for k, n in enumerate(names)}
                 wantm = {n: exp[k]["matches"] for k, n in enumerate(names)}
                 if nmatch != wantc:
@@ -193,6 +198,36 @@ def main(tier):
                 if len(chk.samples) < 2 and name == "count" and i % 41 == 3:
                     chk.sample({"args": j["args"][6:], "counts": {n: exp[k]["count"] for k, n in enumerate(names)},
                                 "count_matches": {n: exp[k]["matches"] for k, n in enumerate(names)}})
+        # the modes must agree WITH EACH OTHER whatever the model says (the statement's own wording)
+        for (i, maxc, term_last), modes_seen in observed.items():
+            vals = {k: {n: v.get(n, 0) for n in ["f%d" % x for x in range(NF)]} for k, v in modes_seen.items()}
+            if len(set(json.dumps(v, sort_keys=True) for v in vals.values())) > 1:
+                r = recs[i]
+                sig = {"mode": "cross", "modes_disagree": True, "maxcount": maxc, "unterminated": term_last is False,
+                       "crlf_content": term_last == "crlf_content", "pattern": rr.render(r["u"]),
+                       "opts": sorted(k for k, v in r["o"].items() if v)}
+                if term_last is False:
+                    # mechanism: which modes are short by exactly the empty match at the very end of each file's unterminated
+                    # last line (the known defect of the printers' match iteration), the others being right
+                    exp = per_file(r, lines, maxc, "lines")
+                    names = ["f%d" % x for x in range(NF)]
+                    deficit = {}
+                    for k, n in enumerate(names):
+                        last = max(x for x in range(len(lines)) if x % NF == k)
+                        lr = r["lines"][last]
+                        blen = len(rr.sym_bytes(lines[last]))
+                        deficit[n] = 1 if (lr["sel"] and lr["m"] and lr["m"][-1] == [blen, blen]) else 0
+                    want = {n: exp[k]["matches"] for k, n in enumerate(names)}
+                    short = [m for m, v in sorted(vals.items()) if all(v[n] == want[n] - deficit[n] for n in names)]
+                    right = [m for m, v in sorted(vals.items()) if all(v[n] == want[n] for n in names)]
+                    if sum(deficit.values()) > 0 and len(short) + len(right) == len(vals):
+                        sig["eof_empty_match"] = True
+                        sig["short_modes"] = "+".join(short)
+                chk.violation(sig,
+                              {"why": {"the modes report different numbers of matches": vals}, "scenario": {"u": r["u"], "o": r["o"]},
+                               "max_count": maxc, "directory": str(term_last)})
+            else:
+                chk.validated += 1
     finally:
         sc.close()
     ml_part(chk, tier)
